@@ -528,12 +528,16 @@ def sec_sqrt_iswap(ctx, rng, case):
         except ValueError as e:
             if "cannot be decomposed into exactly" not in str(e):
                 raise
-            ctx.check(expect != "yes", "sqrt_iswap:ValueError-iff-infeasible", "C15:two_qubit_matrix_to_sqrt_iswap_operations:rejects-feasible-count",
-                      "ValueError for required_sqrt_iswap_count=%r although Weyl coordinates %r allow it" % (required, coords), **wit)
+            # (the routine decides from its own kak_decomposition(u, atol/10): when that call is the recorded KAK failure,
+            # its interaction coefficients are garbage and so is the feasibility answer)
+            _emit(ctx, [("sqrt_iswap:ValueError-iff-infeasible", "C15:two_qubit_matrix_to_sqrt_iswap_operations:rejects-feasible-count", expect != "yes",
+                         "ValueError for required_sqrt_iswap_count=%r although Weyl coordinates %r allow it" % (required, coords))],
+                  _kak=(u, atol / 10, 0.0), **wit)
             ctx.reject("sqrt_iswap:required-count-infeasible")
             continue
-        ctx.check(expect != "no", "sqrt_iswap:ValueError-iff-infeasible", "C15:two_qubit_matrix_to_sqrt_iswap_operations:accepts-infeasible-count",
-                  "no ValueError for required_sqrt_iswap_count=%r although Weyl coordinates %r forbid it" % (required, coords), **wit)
+        _emit(ctx, [("sqrt_iswap:ValueError-iff-infeasible", "C15:two_qubit_matrix_to_sqrt_iswap_operations:accepts-infeasible-count", expect != "no",
+                     "no ValueError for required_sqrt_iswap_count=%r although Weyl coordinates %r forbid it" % (required, coords))],
+              _kak=(u, atol / 10, 0.0), **wit)
         if expect == "either":
             ctx.event("sqrt-iswap-grey-band")
         v, d, n = P.post_sqrt_iswap(q0, q1, u, ops, required, inv, atol, clean, coords)
